@@ -182,7 +182,7 @@ PROPS = {
                       "(witness is modelled sequentially; witness_fold shows any order ends at the maximum). Decimal rendering of the clock "
                       "file is abstracted (FileState) and validated on real files. Fixed in /repo: CLI opened the repository without clock "
                       "loaders. Known finding: hop limit vs per-type clock.",
-        "required_theorems": ["increment_gt", "witness_ge", "witness_fold", "step_synced", "step_monotone", "run_monotone", "increment_fresh",
+        "required_theorems": ["gen_clock_not_exist_only_when_missing", "increment_gt", "witness_ge", "witness_fold", "step_synced", "step_monotone", "run_monotone", "increment_fresh",
                               "witness_dominates", "persist_restart", "deleted_clock_restarts", "torn_clock_errors", "rebuild_dominates",
                               "merge_witnesses_remote", "written_dominates", "commit_unreadable_when_clock_far", "CAS.witness_cas_linear", "CAS.step_inv"],
         "slices": ["C05"],
@@ -455,7 +455,7 @@ PROPS = {
                       "truncated in place.",
         "required_theorems": ["bfs_mono", "read_mono", "path_crash_atomic", "multi_entity_crash_atomic", "refs_run", "last_target_readable", "disciplined_shape", "retry_completes", "clock_not_behind",
                               "commit_before_clock_is_behind", "atomic_clock_write", "truncating_clock_write_tears",
-                              "gen_paths_disciplined", "gen_clock_write_atomic"],
+                              "gen_paths_disciplined", "gen_clock_write_atomic", "gen_clock_create_atomic"],
         "slices": ["C06"],
         "rule": "go-git repositories on disk (three authors, bugs with several commits, a remote with a clone that is ahead): for each "
                 "write path (new bug; edit staged by several authors; MergeAll with a new, a fast-forward and a diverged bug; pull; new "
